@@ -283,7 +283,7 @@ def replay(case):
                 args.append(tmp)
         else:
             args += paths
-        env = dict(os.environ, PYTHONPATH="/repo", PYTHONDONTWRITEBYTECODE="1")
+        env = dict(os.environ, PYTHONPATH=__import__("symx").REPO, PYTHONDONTWRITEBYTECODE="1")
         r = subprocess.run(args, cwd=cwd, capture_output=True, text=True, timeout=60, env=env)
         exc = None
         if "Traceback (most recent call last)" in r.stderr:
